@@ -32,8 +32,42 @@ def conflicts(tables=("long_months", "short_months", "constant_pair")):
     return out
 
 
+_cache = {}
+
+
+def model_findings(rep):
+    """every offending entry TLC finds in the configuration tables (spec/Config.tla, lenient configuration): [{inv, what}]"""
+    import configmodel
+    from vlib import ToolError, tlc
+    key = id(rep)
+    if key not in _cache:
+        r = tlc("Config", "MC_Config", workers=2, timeout=600, env={"CONFIGMODEL": configmodel.write()}, want_cases=False)
+        if r.error or r.violated:
+            raise ToolError("Config.tla did not evaluate the configuration tables: %s" % (r.violated or r.error))
+        rep.add_tlc("MC_Config", r)
+        _cache[key] = r.info
+    return _cache[key]
+
+
+GATING = {"spellings that differ only by diacritics name different months", "spellings that differ only by diacritics mean different things"}
+
+
 def report(rep, tables, form):
-    for lang, t, f, ws in conflicts(tables):
-        rep.violation({"check": "config", "form": form, "text": "config.json languages.%s.%s" % (lang, t), "spellings": ws,
-                       "feat": {"form": form, "failure": "spellings_that_differ_only_by_diacritics_disagree", "lang": lang, "table": t},
-                       "class": "config|%s|%s|%s" % (lang, t, f)})
+    """the word-table part of the configuration model gates (the renderers trust these tables); every other finding of the model is
+    reported in the evidence under coverage.config_model and changes no exit code (DESIGN 14.10)"""
+    other = []
+    for f in model_findings(rep):
+        w = f["what"]
+        if f["inv"] in GATING and w.get("table") in tables:
+            rep.violation({"check": "config", "form": form, "text": "config.json languages.%s.%s" % (w["lang"], w["table"]), "spellings": [w["a"], w["b"]],
+                           "feat": {"form": form, "failure": "spellings_that_differ_only_by_diacritics_disagree", "lang": w["lang"], "table": w["table"]},
+                           "class": "config|%s|%s|%s" % (w["lang"], w["table"], w["fold"])})
+        elif f["inv"] not in GATING:
+            other.append(f)
+    rep.extra["config_model"] = {"findings": len(other), "examples": other[:8]}
+    # the Python twin of the fold rule stays as a cross-check of the TLC run (same answer or a tool error)
+    twin = {(l, t, f) for l, t, f, _ in conflicts(tables)}
+    mine = {(f["what"]["lang"], f["what"]["table"], f["what"]["fold"]) for f in model_findings(rep) if f["inv"] in GATING and f["what"].get("table") in tables}
+    if twin != mine:
+        from vlib import ToolError
+        raise ToolError("configuration lint: TLC and the Python twin disagree: %s vs %s" % (sorted(mine), sorted(twin)))
